@@ -48,9 +48,9 @@ FLOORS = {
 # W5: the repository's own test suite runs once under these ambient monitors (thorough tier)
 W5_MONITORS = ['bijection']
 CASE_TIMEOUT = {"quick": 90, "thorough": 180}
-SIZES = {"quick": 450, "thorough": 9000}
+SIZES = {"quick": 600, "thorough": 10000}
 KINDS = ("relabel", "redundant", "repack", "repack", "reload", "self", "unrelated", "finder", "near", "symatom",
-         "sympath", "sympath")
+         "sympath", "sympath", "finder3", "finder3", "finder3")
 
 
 def shard_setup(tier):
@@ -157,6 +157,21 @@ def gen_cases(tier, seed):
                 if rng.random() < 0.5:
                     p2.update(sym=False, inferral=[])
             kind = rng.choice(("finder", "sympath", "sympath"))
+        elif kind == "finder3":
+            # three letters, the symmetry and two-step expansions (rules with 5-6 children): the
+            # matcher backtracks a lot, so matches accepted under the hypothesis that an
+            # ancestor pair matches meet ancestors that fail later
+            pats = set()
+            for _ in range(rng.choice((1, 2, 2, 3))):
+                pats.add("".join(rng.choice("abc") for _ in range(rng.choice((2, 3, 3)))))
+            c1 = {"prefix": "".join(rng.choice("abc") for _ in range(rng.choice((0, 0, 1)))),
+                  "patterns": sorted(pats), "alphabet": "abc", "just_prefix": False, "stats": [],
+                  "bytes": False, "proper": False, "right": None}
+            if rw.is_empty(c1):
+                continue
+            p1.update(sym=True, twice=rng.choice(([1], [0], [0, 1])), factory=None, dead=False, merge=False)
+            c2, p2 = relabel(c1, rng), dict(p1)
+            kind = "finder"
         elif kind == "finder":
             p1["sym"] = True
             c2, p2 = relabel(c1, rng), dict(p1)
